@@ -1,6 +1,7 @@
 """Fixes related to improving classes and object-oriented code."""
 
 import ast
+import collections
 import copy
 import re
 from typing import Collection, Iterable
@@ -145,9 +146,15 @@ def move_staticmethod_static_scope(source: str, preserve: Collection[str]) -> st
         for base in classdef.bases
         for name in core.walk(base, ast.Name)
     }
+    class_name_counts = collections.Counter(
+        classdef.name for classdef in core.walk(root, ast.ClassDef)
+    )
     for classdef in sorted(parsing.iter_classdefs(root), key=lambda cd: cd.lineno, reverse=True):
         if classdef.bases or classdef.name in base_class_names:
             # Methods may be inherited, overridden or accessed through a subclass
+            continue
+        if class_name_counts[classdef.name] > 1:
+            # The name does not always refer to this class
             continue
 
         for funcdef in parsing.iter_funcdefs(classdef):
